@@ -64,13 +64,19 @@ def stepOk (c : Case) (prev : Snap) (op : Op) (o : StepObs) : Bool :=
     (if (fieldVals c prev).all (·.2.isSome) then
        o.exc == none && o.values == some (fieldVals c prev) && o.flags.contains "fresh" && o.flags.contains "frozen" &&
        -- and the copy hashes (its own hash cache was carried over or re-created)
-       (!hashReady c prev || o.flags.contains "reshash")
+       (!hashReady c prev || (o.flags.contains "reshash" && o.flags.contains "twin"))
      else true)
   | .evolve _ =>
     -- the values of the result are C12's business; here: frozenness never gets in the way, the original is
     -- untouched and the result is again a frozen instance
     o.snap == prev && o.exc != some .frozenInstance &&
-    (o.exc != none || (o.flags.contains "fresh" && o.flags.contains "frozen"))
+    (o.exc != none ||
+      (o.flags.contains "fresh" && o.flags.contains "frozen" &&
+       -- and the result hashes like a freshly built instance with its field values (no hash code of the
+       -- original travels along), whenever its hashed fields are set
+       (match o.values with
+        | some vals => !evolveReady c vals || (o.flags.contains "reshash" && o.flags.contains "twin")
+        | none => false)))
   | .raise_ =>
     o.exc == none && o.flags.contains "caught" && o.snap == { prev with ex := { prev.ex with tb := true } }
   | .raiseFrom =>
